@@ -66,9 +66,28 @@ def gen_script(rng):
     return '\n'.join(L) + '\n'
 
 
+def gen_migrate_v0_script(rng):
+    """"migration preserves every record": a blob of format version 0 (version 0 stored the key bytes in the opposite
+    order; here the version field of a produced blob is set to 0) migrated to version 1 serves every record under its
+    migrated key, with its original data."""
+    K = 4
+    L = ['cfg K=4 dup=1 group=2 bloom=none init=eager runtime=mt validate=%d nomodel=1' % rng.choice([0, 1]), 'open', 'nop migrate-v0']
+    recs = []
+    for i in range(rng.randrange(1, 6)):
+        key = bytes([16 + i, rng.randrange(256), rng.randrange(256), 1 + i])
+        ln = rng.choice([0, 5, 40, 300])
+        L.append('W %s %d %s %d %d' % (key.hex(), 7, rng.choice(['-', 'm1']), ln, 0 if ln == 0 else i + 1))
+        recs.append((key, ln, 0 if ln == 0 else i + 1))
+    L += ['close', 'patch blob 0 8 00000000', 'tool migrate 0 1', 'tool validate_out 0', 'tool install 0', 'open']
+    for (key, ln, sd) in recs:
+        L.append('R %s' % key[::-1].hex())
+    L += ['counts', 'close']
+    return '\n'.join(L) + '\n'
+
+
 def gen(tier, rng):
     n = 240 if tier == 'quick' else 5000
-    return [('tools%05d' % i, gen_script(rng)) for i in range(n)]
+    return [('tools%05d' % i, gen_script(rng)) for i in range(n)] + [('migv0%05d' % i, gen_migrate_v0_script(rng)) for i in range(n // 12)]
 
 
 META_IMG = {'-': bytes(8), 'm1': (1).to_bytes(8, 'little') + (1).to_bytes(8, 'little') + b'v' + (1).to_bytes(8, 'little') + b'1'}
@@ -114,6 +133,23 @@ def meta_still_ok(lines, rec, pos, mask):
 def oracle(lines, io, spec=None):
     fails = []
     K = 4
+    if 'nop migrate-v0' in lines:
+        ws = [l.split() for l in lines if l.startswith('W ')]
+        for cmd, want in (('tool migrate 0 1', 'tool migrate ok'), ('tool validate_out 0', 'tool validate_out ok'), ('open', 'open ok')):
+            idxs = [i for i, l in enumerate(lines) if l == cmd]
+            i = idxs[-1] if idxs else None
+            if i is None or i >= len(io) or io[i] != want:
+                fails.append('`%s` on a version-0 blob: %s' % (cmd, io[i] if i is not None and i < len(io) else '-'))
+                return fails
+        oi = [i for i, l in enumerate(lines) if l == 'open'][-1]
+        reads = {lines[i].split()[1]: io[i] for i in range(oi + 1, min(len(lines), len(io))) if lines[i].startswith('R ')}
+        for t in ws:
+            rk = bytes.fromhex(t[1])[::-1].hex()
+            want = 'R Found %s %s' % (t[4], t[5])
+            if reads.get(rk) != want:
+                fails.append('the record of key %s is not served under its migrated key %s with its original data: %s' % (t[1], rk, reads.get(rk)))
+                break
+        return fails
     # layout
     layout = []
     off = 20
